@@ -95,4 +95,10 @@ Lemma ok_pool2_holds : ok_pool2 K.
 Proof. split; [intros; fcbv; list_eq; field; side | reflexivity]. Qed.
 Lemma ok_pool_aniso_holds : ok_pool_aniso K.
 Proof. split; [intros; fcbv; list_eq; field; side | split; reflexivity]. Qed.
+Lemma ok_roi2_holds : ok_roi2 K.
+Proof. split; [intros; reflexivity | split; [reflexivity | intros s c d; unfold src_ok; repeat constructor; fcbv; list_eq; field; side]]. Qed.
+Lemma ok_roi2_pad_holds : ok_roi2_pad K.
+Proof. split; [intros; reflexivity | split; [reflexivity | intros s c d; unfold src_ok; repeat constructor; fcbv; list_eq; field; side]]. Qed.
+Lemma ok_conv2_holds : ok_conv2 K.
+Proof. unfold ok_conv2. intros. fcbv. list_eq; ring. Qed.
 End C04GenA.
